@@ -68,8 +68,17 @@ def check_input(ctx0, r, inp):
     seq_bad = any(re.match(r"\d+\.\d+\.(step\d+|ahead-err\d+)$", b) for b in bad)
     applied_bad = any(re.match(r"\d+\.0\.(step\d+|ahead-err\d+)$", b) for b in bad)
     all_known = bool(ctx.items)
+    confirmed = None
+    if resolved and ctx.items:
+        # the recorded class is what the search AS WRITTEN does on such a table: the faithful mirror of the search must
+        # report the same sets at the errors concerned; if it reports something else, this is a different defect
+        eis = sorted(set(int(b.split(".")[0]) for b in bad if re.match(r"\d+\.\d+\.", b)))
+        confirmed = repair.known_class_confirmed(r, r.inputs.index(inp), eis) if eis else None
+        ctx0.count("known_class_mirror_%s" % {True: "confirms", False: "CONTRADICTS", None: "not_consulted"}[confirmed])
     for d, no_input, tag in ctx.items:
-        known = resolved and ((tag == "seq" and seq_bad) or (tag == "leaves" and applied_bad) or tag == "rep")
+        known = resolved and confirmed is not False and ((tag == "seq" and seq_bad) or (tag == "leaves" and applied_bad) or tag == "rep")
+        if confirmed is False:
+            d["search_mirror"] = "the mirror of the search as written does not report this set: not the recorded class"
         all_known = all_known and known
         d["table_has_resolved_conflicts"] = resolved
         ctx0.count("failing_known_class" if known else "failing_ALARM")
@@ -201,11 +210,25 @@ def _check_input(ctx, ctx0, r, inp):
     return ok
 
 
+def nonassoc_corpus():
+    """tables with explicit Error cells (%nonassoc) in states that also reduce on merged lookaheads: an Insert that only
+    triggers reductions and then hits the Error cell shifts nothing (so it must not become a repair step)"""
+    from gen.grammars import Gram
+    t, r = (lambda x: ('t', x)), (lambda x: ('r', x))
+    g1 = Gram(["<", "n", "(", ")"], [("E", [[t("n")], [r("E"), t("<"), r("E")], [t("("), r("E"), t(")")]])], precs=[("nonassoc", ["<"])])
+    g2 = Gram(["<", "+", "n", "(", ")"], [("E", [[t("n")], [r("E"), t("<"), r("E")], [r("E"), t("+"), r("E")], [t("("), r("E"), t(")")]])],
+              precs=[("nonassoc", ["<"]), ("left", ["+"])])
+    ins1 = [["n", "<", "n", "<", "n"], ["(", "n", "<", "n", "<", "n", ")"], ["n", "<", "<", "n"], ["n", "<", "n", "<"], ["<", "n"],
+            ["n", "<", "n", ")", "<", "n"], ["(", "n", "<", "n", "<", "n"]]
+    ins2 = ins1 + [["n", "<", "n", "+", "n", "<", "n"], ["n", "+", "n", "<", "n", "<", "n", "+", "n"]]
+    return [("nonassoc", g1, "unit", {}, ins1), ("nonassoc", g2, "unit", {}, ins2)]
+
+
 def run(ctx):
     ctx.gate = core.proof_gate("C05")
     for _ in ctx.gate["theorems"]:
         ctx.oblige(True)
-    cases = repairgen.gen_cases(ctx, ctx.n(240, 2500), ctx.n(7, 8))
+    cases = nonassoc_corpus() + repairgen.gen_cases(ctx, ctx.n(240, 2500), ctx.n(7, 8))
     results = repair.run_cases(cases)
     for r in results:
         if not r.ok:
